@@ -118,6 +118,11 @@ fn main() {
         run_prop(&mut h, nb::BigintCtx::<nb::verif::PVerif>::default(), false);
         run_prop(&mut h, mal::MalachiteCtx::<mal::verif::PVerif>::default(), false);
     }
+    for (p, q, g) in MID_SETS {
+        strand::verif_hooks::set_pverif(p, q, g, "2");
+        run_prop(&mut h, nb::BigintCtx::<nb::verif::PVerif>::default(), false);
+        run_prop(&mut h, mal::MalachiteCtx::<mal::verif::PVerif>::default(), false);
+    }
     run_prop(&mut h, nb::BigintCtx::<nb::P2048>::default(), true);
     run_prop(&mut h, mal::MalachiteCtx::<mal::P2048>::default(), true);
     if std::env::var("VERIF_R255").map(|v| v != "0").unwrap_or(true) {
